@@ -12,5 +12,6 @@ open MdVerif.C05
 #print axioms C05X_pass_commutes
 #print axioms C05X_partial
 #print axioms C05X_upto_ampsub
+#print axioms C05X_partial_general
 #print axioms C05X_nameChar_safe
 #print axioms C05X_attr_list_values_escaped
